@@ -21,3 +21,4 @@ def run(repo, res, tier):
     # a container built from / converted to another keeps every pair: no key-by-key re-lookup (first value only)
     from .. import hookrules as _hk
     _hk.rule_reindex(repo, res)
+    _hk.rule_v5(repo, res)
